@@ -2,12 +2,14 @@
 import hashlib, json, os, random, subprocess, sys, time
 
 VERIF = os.path.dirname(os.path.dirname(os.path.abspath(__file__)))
-REPO = "/repo"
+# The registered commands always use /repo and /verif/harness.  The overrides exist only for the self-test
+# (bin/seedtest2), which runs the same checks against a patched scratch copy without touching /repo.
+REPO = os.environ.get("VERIF_REPO", "/repo")
 SPEC = os.path.join(VERIF, "spec")
-WORK = os.path.join(VERIF, "work")
-HARNESS = os.path.join(VERIF, "harness")
-EVIDENCE = os.path.join(VERIF, "evidence")
-REPLAYS = os.path.join(VERIF, "replays")
+WORK = os.environ.get("VERIF_WORK", os.path.join(VERIF, "work"))
+HARNESS = os.environ.get("VERIF_HARNESS", os.path.join(VERIF, "harness"))
+EVIDENCE = os.environ.get("VERIF_EVIDENCE", os.path.join(VERIF, "evidence"))
+REPLAYS = os.environ.get("VERIF_REPLAYS", os.path.join(VERIF, "replays"))
 TLCW = os.path.join(VERIF, "bin", "tlcw")
 BUILDS = ("std", "alloc", "none")
 
